@@ -12,9 +12,9 @@ pub struct SimAlloc;
 
 const SLOTS: usize = 256;
 const G: usize = 64;
-const GUARD_BYTE: u8 = 0xC5;
-const POISON_NEW: u8 = 0xFD;
-const POISON_FREED: u8 = 0xFD;
+const GUARD_BYTE: u8 = 0xF8;
+const POISON_NEW: u8 = 0xFA;
+const POISON_FREED: u8 = 0xFA;
 
 #[derive(Clone, Copy)]
 struct Rec {
